@@ -3,7 +3,7 @@ package main
 func init() {
 	props["C14"] = cfg("./c14", false, withShards(8, 16), withAssume(
 		"the collector is an in-process scripted server on loopback; arrival and answer times are taken on the collector side with the monotonic clock",
-		"waits are asserted from below only (server hint); 'arrives after cancel / Shutdown / MaxElapsedTime / timeout' clauses carry 100-250 ms of slack and must reproduce in three consecutive runs of the case",
+		"waits are asserted from below only (server hint); 'arrives after cancel / Shutdown / MaxElapsedTime' clauses carry 100-250 ms of slack and must reproduce in three consecutive runs of the case",
 		"a network-level failure (connection closed without an answer, the exporter's own per-request timeout) may or may not be retried",
 		"Shutdown is asserted relative to the moment it returned; exporters whose Shutdown waits for the in-flight export satisfy the clause trivially",
 		"only delay-seconds Retry-After values count as a server hint",
